@@ -773,7 +773,13 @@ class Facts:
             if f.crate not in known or f.kind == "Closure" or f.j.get("coroutine") or base(p) in known[f.crate]:
                 continue
             if p.startswith("<") and " as " in p.split(">::")[0]:
-                continue                      # trait impl method: called through the trait, keeps its identity
+                # trait impl method: keeps its identity, unless the trait itself is a new crate-local (private) trait --
+                # code moved into `impl Amend for SpanSet` is a helper like any other
+                tr = p.split(" as ", 1)[1].rsplit(">::", 1)[0]
+                tr_crate = tr.split("::", 1)[0].lstrip("<")
+                known_traits = {k.split(" as ", 1)[1].rsplit(">::", 1)[0] for k in known[f.crate] if k.startswith("<") and " as " in k}
+                if tr_crate != f.crate or tr in known_traits:
+                    continue
             if f.j.get("exported") or (f.j.get("pub") and f.j.get("reachable")):
                 continue                      # new public API: a root of its own
             if any(b["term"]["k"] == "yield" for b in f.blocks):
